@@ -76,6 +76,9 @@ pub enum Ev {
     ClockNow(String),
     /// index into `WorldSys::macros`: a fixed sequence of events explored as one transition
     Macro(usize),
+    /// the host's observer reads every data set through the public getters, the current data set
+    /// with each port's filter contribution (what statime-linux's observation socket serves)
+    Observe,
 }
 
 #[derive(Clone, Debug)]
@@ -447,6 +450,16 @@ impl<'a> Run<'a> {
                     }
                 }
                 Ev::SlaveOnly(b) => me.node.inst.set_slave_only(b),
+                Ev::Observe => {
+                    let inst = me.node.inst;
+                    let _ = (inst.default_ds(), inst.parent_ds(), inst.time_properties_ds(), inst.path_trace_ds());
+                    let _ = inst.current_ds(None);
+                    for p in 0..me.node.ports.len() {
+                        let c = me.node.port_ref(p).port_current_ds_contribution();
+                        let _ = inst.current_ds(c);
+                        let _ = me.node.port_ref(p).port_ds();
+                    }
+                }
                 Ev::Quality(i) => {
                     let (c, a, v) = me.cfg.qualities[i];
                     me.node.inst.set_clock_quality(ClockQuality {
